@@ -27,6 +27,10 @@ type c13bCase struct {
 }
 
 func runC13bParser(c c13bCase) (string, string) {
+	return guard2("C13", func() (string, string) { return runC13bParser0(c) })
+}
+
+func runC13bParser0(c c13bCase) (string, string) {
 	raw := make([]byte, c.X*c.Y*2)
 	i := 0
 	for y := 0; y < c.Y; y++ {
@@ -71,6 +75,10 @@ func runC13bParser(c c13bCase) (string, string) {
 }
 
 func runC13bStream(c c13bCase) (string, string) {
+	return guard2("C13", func() (string, string) { return runC13bStream0(c) })
+}
+
+func runC13bStream0(c c13bCase) (string, string) {
 	s := c.S
 	var items []e2eItem
 	n := 0
